@@ -468,9 +468,10 @@ func configValidText(r *Rng, k configKind) string {
 	case ckBool:
 		return Pick(r, []string{"true", "false", "1", "0", "T", "F", "TRUE", "False", ""})
 	case ckInt, ckInt64:
-		return Pick(r, []string{"0", "5", "-5", "+7", "0x10", "0b11", "0o17", "1_000", "9223372036854775807", "-9223372036854775808", ""})
+		return Pick(r, []string{"0", "5", "-5", "+7", "0x10", "0b11", "0o17", "1_000", "9223372036854775807", "-9223372036854775808", "",
+			"0755", "022", "-010", "+017", "00", "0_7", "0X1f", "-0x8000000000000000", "123456789", "1234567890"}) // base 0: a leading zero means octal
 	case ckUint, ckUint64:
-		return Pick(r, []string{"0", "5", "0x10", "18446744073709551615", "017", ""})
+		return Pick(r, []string{"0", "5", "0x10", "18446744073709551615", "017", "", "0644", "0b1", "1_0"})
 	case ckString:
 		return Pick(r, []string{"", "a", "a=b", "-b", "--", "-", "=", "x y", "\x00", "\xff\xfe", "-n=3", "true"})
 	case ckFloat64:
@@ -488,9 +489,9 @@ func configInvalidText(r *Rng, k configKind) string {
 	case ckBool:
 		return Pick(r, []string{"maybe", "yes", "2", "-b", " true", "tru"})
 	case ckInt, ckInt64:
-		return Pick(r, []string{"x", "1.5", "9223372036854775808", "--", "0x", "1e3", " 1", "-"})
+		return Pick(r, []string{"x", "1.5", "9223372036854775808", "--", "0x", "1e3", " 1", "-", "08", "-09", "0128", "1__0", "_1", "0b2", "7\r"})
 	case ckUint, ckUint64:
-		return Pick(r, []string{"-1", "x", "18446744073709551616", "1.0", "-"})
+		return Pick(r, []string{"-1", "x", "18446744073709551616", "1.0", "-", "09", "+1"})
 	case ckFloat64:
 		return Pick(r, []string{"x", "1e", "--", "1e400", "0x1", "1,5"})
 	case ckDuration:
